@@ -1505,3 +1505,24 @@ Check C01_statement_all_model : forall dbg idna, IdnaOK idna -> forall input bas
   /\ (forall su u, spec_basic_url_parse (spec_host_parser idna) input sbase = BDone su -> m = POk u ->
         (related dbg spec_host_serializer u su /\ spec_base_ok su = true) /\ base_shape_ok su = true).
 Print Assumptions C01_statement_all_model.
+
+(* the same in the shape of C01_statement: its match, instantiated with the host model (host_parse idna,
+   host_parse_opaque, host_display), the Standard's host parser / serializer over the same oracle, and
+   api_of_model read as a total function; the one additional arm is the model's ParseError::Overflow against a
+   Standard result whose href exceeds u32::MAX bytes *)
+Theorem C01_statement_instance : forall dbg idna, IdnaOK idna -> forall input base sbase,
+  usv_list input -> full_rel dbg spec_host_serializer base sbase -> known_c01 base input = 0 ->
+  statement_shape dbg spec_host_serializer
+    (parse_url dbg (host_parse idna) host_parse_opaque host_display None base input)
+    (spec_basic_url_parse (spec_host_parser idna) input sbase).
+Proof. exact statement_instance. Qed.
+Check C01_statement_instance : forall dbg idna, IdnaOK idna -> forall input base sbase,
+  usv_list input -> full_rel dbg spec_host_serializer base sbase -> known_c01 base input = 0 ->
+  match parse_url dbg (host_parse idna) host_parse_opaque host_display None base input,
+        spec_basic_url_parse (spec_host_parser idna) input sbase with
+  | POk u, BDone su => api_total dbg u = spec_api_list spec_host_serializer su
+  | PErr Overflow, BDone su => U32_MAX_P < nlen (get_href spec_host_serializer su)
+  | PErr _, BFailure _ => True
+  | _, _ => False
+  end.
+Print Assumptions C01_statement_instance.
